@@ -284,7 +284,9 @@ def check_std_constructed(env):
 
     D = decimal.Decimal
     values = {
-        decimal.Decimal: [D(0.1), D(2 ** 63), D(2 ** 70), D(-(2 ** 64)), D(1) / D(2 ** 30), D(1.5), D(0), D(-0.25), D(1e-07), D(123456789.125)],
+        decimal.Decimal: [D(0.1), D(2 ** 63), D(2 ** 70), D(-(2 ** 64)), D(1) / D(2 ** 30), D(1.5), D(0), D(-0.25), D(1e-07), D(123456789.125),
+                          # decimals that are not the exact expansion of any float (the JSON image of Decimal is a number read as float)
+                          D("0.1"), D("1e-30"), D("123456789012345678901234567890.5"), D("2.675")],
         uuid.UUID: [uuid.UUID(int=0), uuid.UUID("12345678-1234-5678-1234-567812345678")],
         dt.date: [dt.date(2020, 1, 31), dt.date(1, 1, 1), dt.date(9999, 12, 31)],
         dt.datetime: [dt.datetime(2020, 1, 31, 12, 30), dt.datetime(2020, 1, 31, 12, 30, 0, 123), dt.datetime(2021, 6, 30, 23, 59, 59, tzinfo=dt.timezone(dt.timedelta(hours=5, minutes=30))),
@@ -314,7 +316,10 @@ def check_std_constructed(env):
                     continue
                 back = harness.call(deserialize, T, json.loads(text))
                 if back.kind != "ok" or un(back.value) != v or type(un(back.value)) is not type(v) or (cls is decimal.Decimal and repr(un(back.value)) != repr(v)):
-                    env.violation({"kind": "round-trip-differs", "family": "std-constructed", "cls": cls.__name__}, {**wit, "back": back.brief()})
+                    feats = {"kind": "round-trip-differs", "family": "std-constructed", "cls": cls.__name__}
+                    if cls is decimal.Decimal:
+                        feats["float_exact"] = D(float(v)) == v
+                    env.violation(feats, {**wit, "back": back.brief()})
 
 
 def run(env):
